@@ -16,5 +16,6 @@ print("gen tables:", rows)
 if not ok:
     print(msg); sys.exit(1)
 PY
+bin/mkdrv
 cd lean
-lake build ZapVerif zvdrv
+lake build ZapVerif $(ls ZapVerif/Drv | sed -n 's/^\(C[0-9TR]*\)\.lean$/zvdrv-\1/p')
